@@ -1,0 +1,12 @@
+//go:build verif
+
+package shell
+
+// VerifValidateAndAcquire exposes validateAndAcquire (the authorisation and
+// session-slot step shared by NewSession and NewPTYSession) to the
+// verification harness, so that authorisation decisions can be observed
+// without creating pipes or processes.
+func (e *Executor) VerifValidateAndAcquire(meta *ShellMeta) error { return e.validateAndAcquire(meta) }
+
+// VerifDangerousArgPattern returns the source text of the argument filter.
+func VerifDangerousArgPattern() string { return dangerousArgPattern.String() }
